@@ -9,9 +9,14 @@ dst = f"/verif/seeded/{prop}-{k}"
 os.makedirs(dst, exist_ok=True)
 for f in ("patch.diff", "demo.py", "notes.md"):
     shutil.copy(os.path.join(src, f), os.path.join(dst, f))
-o = subprocess.run(["/verif/selftest/try_seed.py", os.path.join(dst, "patch.diff"), prop], capture_output=True, text=True)
-rules = sorted(set(re.findall(r" (C\d\d\.[a-z_0-9]+) \[", o.stdout)))
-caught = f"{prop} rc=1" in o.stdout
+# run the property's check on a scratch copy of btclib/ with the patch applied (never on /repo itself)
+import importlib.util
+_spec = importlib.util.spec_from_file_location("seeds", "/verif/selftest/seeds.py")
+_seeds = importlib.util.module_from_spec(_spec)
+_spec.loader.exec_module(_seeds)
+json.dump({"property": prop}, open(os.path.join(dst, "meta.json"), "w"))
+_sid, caught, _msg = _seeds.one(f"{prop}-{k}")
+rules = sorted(set(re.findall(r"'(C\d\d\.[a-z_0-9]+)'", _msg)))
 notes = open(os.path.join(dst, "notes.md")).read()
 meta = {
     "property": prop,
@@ -19,7 +24,7 @@ meta = {
     "needs_to_manifest": notes[:1500],
     "confirmed_by_me": confirm,
     "what_i_ran": [f"/verif/selftest/confirm_seeds.sh /tmp/wt_{prop}  (demo on clean tree -> exit 0; git apply patch; demo -> exit 1; full pytest suite with the patch -> same counts as baseline; git checkout -- .)",
-                   f"/verif/selftest/try_seed.py {dst}/patch.diff {prop}  (git -C /repo apply; /verif/check {prop} --tier thorough; git -C /repo checkout -- .)"],
+                   f"/verif/selftest/seeds.py {prop}-{k}  (patch applied to a scratch copy of /repo/btclib; VERIF_REPO=<copy> /verif/check {prop} --tier thorough; copy removed)"],
     "caught_by_check": caught,
     "reporting_rules": rules,
 }
